@@ -21,7 +21,7 @@
 EXTENDS AbraMatch, Integers, SequencesExt, Json, IOUtils, TLCExt
 
 Thorough == IOEnv.TIER = "thorough"
-K == 20                                   \* matches per generated file
+K == 40                                   \* matches per generated file
 
 \* ------------------------------------------------------------- type universe
 Color == Enum("Color", "Color", FALSE, << Variant("Red", FALSE, <<>>), Variant("Green", FALSE, <<>>), Variant("Blue", FALSE, <<>>) >>)
@@ -58,7 +58,7 @@ Prof == IF Thorough
         ELSE [int |-> <<"0", "1">>, float |-> <<"1.0", "1.00", "2.5">>, string |-> <<"a", "b">>, leafors |-> TRUE]
 Depth == IF Thorough THEN 2 ELSE 1
 MaxBase == IF Thorough THEN 6 ELSE 4       \* top-level or-patterns for types with at most this many binder-free base patterns
-Cap2 == IF Thorough THEN 12000 ELSE 420
+Cap2 == IF Thorough THEN 12000 ELSE 800
 Cap3 == IF Thorough THEN 3400 ELSE 220
 
 Pool == [ti \in 1..NT |-> SetToSeq(Pats(TyU[ti].ty, Depth, Prof, MaxBase))]
@@ -66,8 +66,9 @@ Vals == [ti \in 1..NT |-> Values(TyU[ti].ty, Prof)]
 ValsSp == [ti \in 1..NT |-> ValuesG(TyU[ti].ty, Prof, SemSp)]
 ValsOg == [ti \in 1..NT |-> ValuesG(TyU[ti].ty, Prof, SemOg)]
 ValSeq == [ti \in 1..NT |-> SetToSeq(Vals[ti])]
-\* sampled lists draw from the depth-2 pools in both tiers
-RichPool == IF Thorough THEN Pool ELSE [ti \in 1..NT |-> SetToSeq(Pats(TyU[ti].ty, 2, Prof, MaxBase))]
+\* sampled lists draw from the depth-2 pools in both tiers (only computed in sim mode)
+Sim == IOEnv.MODE = "sim"
+RichPool == IF Thorough \/ ~Sim THEN Pool ELSE [ti \in 1..NT |-> SetToSeq(Pats(TyU[ti].ty, 2, Prof, MaxBase))]
 
 MaxLen(ti) == LET m == Len(Pool[ti]) IN IF m * m * m <= Cap3 THEN 3 ELSE IF m * m <= Cap2 THEN 2 ELSE 1
 RECURSIVE PowN(_, _)
@@ -147,7 +148,8 @@ CallOf(L, v) ==
   IN [stmt |-> "println(m" \o ToString(L.g) \o "(" \o ValExpr(ty, v) \o "))",
       arm |-> i,
       allowed |-> SetToSeq({line(bs) : bs \in BindsAlt(v, L.arms[i])}),
-      key |-> IF SiblingOrs(L.arms[i]) THEN "C14|arm-with-or-patterns-in-two-components|alternatives-not-combined"
+      key |-> IF ty.k = "void" THEN "C14|scrutinee-of-type-void|match-fails-at-run-time"
+              ELSE IF ~SingleOrChain(L.arms[i]) THEN "C14|arm-with-several-or-patterns|combinations-of-alternatives-not-tried"
               ELSE "C14|" \o TyU[L.ti].n \o "|" \o JoinS(ArmsTxt(ty, L.arms), " ; ") \o "|" \o ValExpr(ty, v)]
 
 \* everything the specification says about one match
@@ -172,9 +174,20 @@ MatchRec(L, line, wantcalls) ==
                    IF i \in red /\ i \notin redSp THEN "C13|float-literal-respelling|unreachable-arm-not-reported"
                    ELSE IF i \in red /\ i \notin redOg THEN "C13|generic-enum-payload|unreachable-arm-not-reported"
                    ELSE "C13|" \o dflt \o "|arm" \o ToString(i)],
+      key12run |-> IF ty.k = "void" THEN "C12|scrutinee-of-type-void|accepted-match-fails-at-run-time"
+                   ELSE "C12|accepted-match-runs-no-arm|" \o dflt,
+      \* scheduling hint only: check this match in a file of its own (the baseline checker is known to panic on the
+      \* generic-enum-payload family, which would hide the verdicts of all other matches of the file)
+      isolate |-> \E i \in 1..Len(L.arms) : CompositeInGeneric(ty, L.arms[i]),
+      key12fail |-> IF \E i \in 1..Len(L.arms) : CompositeInGeneric(ty, L.arms[i])
+                    THEN "C12|generic-enum-payload|checker-panics-on-constructor-pattern-in-payload"
+                    ELSE "C12|checker-fails|" \o dflt,
+      respelled |-> \E i \in 1..Len(L.arms) : i \in red /\ i \notin redSp,   \* an arm unreachable only because equal literals are spelled differently
       hasor |-> \E i \in 1..Len(L.arms) : HasOr(L.arms[i]),
       prefixes |-> [i \in 1..Len(L.arms) |-> ToString(L.g) \o ":" \o ToString(i)],   \* a printed line starts with one of these
-      calls |-> IF wantcalls /\ exh THEN [j \in 1..Len(ValSeq[L.ti]) |-> CallOf(L, ValSeq[L.ti][j])] ELSE <<>>]
+      \* run-time calls for the lists that are accepted: exhaustive and free of redundant arms (also when only one of the
+      \* deviant readings SemSp / SemOg finds them free of redundant arms: the baseline compiler accepts those)
+      calls |-> IF wantcalls /\ exh /\ (red = {} \/ redSp = {} \/ redOg = {}) THEN [j \in 1..Len(ValSeq[L.ti]) |-> CallOf(L, ValSeq[L.ti][j])] ELSE <<>>]
 
 \* the file of one batch: Header, then the functions; MatchRec gets the line of `fn` (match = next line)
 RECURSIVE Recs(_, _, _, _)
